@@ -38,30 +38,81 @@ func lookup(data interface{}, path []interface{}) (interface{}, bool) {
 // actualErrors extracts the error paths of a response. stripped reports whether
 // "fragment at L:C" elements had to be removed.
 func actualErrors(res map[string]interface{}) (paths [][]interface{}, stripped int, malformed string) {
+	paths, elems, malformed := actualErrorsElems(res)
+	return paths, len(elems), malformed
+}
+
+// namedSpreadAt: does "fragment at L:C" name the place of a spread of a NAMED fragment in the text
+// (the recorded deviation) - and not that of an inline fragment?
+func namedSpreadAt(text, elem string) bool {
+	var line, col int
+	if _, err := fmt.Sscanf(elem, "fragment at %d:%d", &line, &col); err != nil {
+		return false
+	}
+	// (ggql records the place where its reader stood once the spread was read: look backwards)
+	off := 0
+	for l := 1; l < line; l++ {
+		i := strings.IndexByte(text[off:], '\n')
+		if i < 0 {
+			return false
+		}
+		off += i + 1
+	}
+	off += col - 1
+	if off > len(text) {
+		off = len(text)
+	}
+	isName := func(b byte) bool {
+		return b == '_' || b >= '0' && b <= '9' || b >= 'a' && b <= 'z' || b >= 'A' && b <= 'Z'
+	}
+	isBlank := func(b byte) bool { return b == ' ' || b == '\t' || b == '\n' || b == '\r' || b == ',' }
+	i := off
+	// the reader may stand on the first byte after the name, or one further
+	for i > 0 && !isName(text[i-1]) && isBlankOrOne(text, i, off, isBlank) {
+		i--
+	}
+	end := i
+	for i > 0 && isName(text[i-1]) {
+		i--
+	}
+	name := text[i:end]
+	for i > 0 && isBlank(text[i-1]) {
+		i--
+	}
+	return name != "" && name != "on" && i >= 3 && text[i-3:i] == "..."
+}
+
+// isBlankOrOne: going backwards, blanks may be skipped - and a single other byte directly at the
+// recorded place (the reader stands one byte past what it looked at).
+func isBlankOrOne(text string, i, off int, isBlank func(byte) bool) bool {
+	return isBlank(text[i-1]) || i == off
+}
+
+func actualErrorsElems(res map[string]interface{}) (paths [][]interface{}, stripped []string, malformed string) {
 	raw, has := res["errors"]
 	if !has {
 		return
 	}
 	list, ok := raw.([]interface{})
 	if !ok {
-		return nil, 0, fmt.Sprintf("errors is a %T", raw)
+		return nil, nil, fmt.Sprintf("errors is a %T", raw)
 	}
 	for _, e := range list {
 		em, ok := e.(map[string]interface{})
 		if !ok {
-			return nil, 0, fmt.Sprintf("error entry is a %T", e)
+			return nil, nil, fmt.Sprintf("error entry is a %T", e)
 		}
 		var path []interface{}
 		if p, has := em["path"]; has {
 			pl, ok := p.([]interface{})
 			if !ok {
-				return nil, 0, fmt.Sprintf("path is a %T", p)
+				return nil, nil, fmt.Sprintf("path is a %T", p)
 			}
 			for _, el := range pl {
 				switch t := el.(type) {
 				case string:
 					if fragElem.MatchString(t) {
-						stripped++
+						stripped = append(stripped, t)
 						continue
 					}
 					path = append(path, t)
@@ -176,7 +227,8 @@ func checkFullWith(c *Case, prop string, compute func(n *hx.Node, fd *hx.Field, 
 			needMax[ps] += exp.BorderN[ps] // null for a non-null resolver value needs its error
 		}
 	}
-	paths, stripped, malformed := actualErrors(res)
+	paths, strippedElems, malformed := actualErrorsElems(res)
+	stripped := len(strippedElems)
 	if malformed != "" {
 		add("errors-malformed", "", "%s%s", malformed, ctx())
 		return
@@ -219,6 +271,12 @@ func checkFullWith(c *Case, prop string, compute func(n *hx.Node, fd *hx.Field, 
 		if got[k] < min || got[k] > needMax[k] {
 			add("error-paths", "", "path %q: expected %d..%d error entries, got %d%s", k, min, needMax[k], got[k], ctx())
 			break
+		}
+	}
+	for _, el := range strippedElems {
+		if !namedSpreadAt(text, el) {
+			add("fragment-path-element-inline", "", "error path carries %q although no named fragment is spread there: the path does not address the position%s", el, ctx())
+			return
 		}
 	}
 	if stripped > 0 {
